@@ -40,7 +40,7 @@ def mroOf : String → Exc
 
 /-- the exception sets of the decoders' assumed contracts (what `pickle.load` / `marshal.load` raise on a damaged
     stream; the comment at bccache.py:75 and the `pickle` documentation) -/
-def pickleExc : List String := ["EOFError", "UnpicklingError", "ValueError"]
+def pickleExc : List String := ["EOFError", "UnpicklingError", "ValueError", "TypeError"]
 def marshalExc : List String := ["EOFError", "ValueError", "TypeError"]
 
 /-- a handler covers an exception set iff it catches each member -/
@@ -224,6 +224,18 @@ def dumpRun (tmp name : String) (chunks : List Bytes) (f : Fault) : List DumpSte
     (match f with
      | .atWrite k e => (runOps tmp name d (.truncEntry :: (chunks.take k).map .writeEntry), some e)
      | _ => dumpRun tmp name chunks f r (runOps tmp name d (.truncEntry :: chunks.map .writeEntry)))
+
+/-! ## file names: `pattern % key`, the temporary's name, and `clear()`'s glob `pattern % "*"` (bccache.py:257-262, 317-328) -/
+
+/-- the entry's file name for a pattern `pre%spost` -/
+def entryFile (pre post key : List Char) : List Char := pre ++ key ++ post
+
+/-- the temporary's file name: the entry's, a random part, the suffix -/
+def tmpFile (pre post key rnd sfx : List Char) : List Char := entryFile pre post key ++ rnd ++ sfx
+
+/-- `fnmatch(n, pre ++ "*" ++ post)` for `pre`, `post` without glob metacharacters (the translator checks that) -/
+def globMatch (pre post n : List Char) : Bool :=
+  pre.isPrefixOf n && post.isSuffixOf n && decide (pre.length + post.length ≤ n.length)
 
 /-! ## the whole system: loader sources, one cache, several configurations (`BaseLoader.load`, loaders.py:107-149) -/
 
